@@ -1,20 +1,23 @@
 """C03 spec -> code: behaviours of the exhaustive Driver graph replayed with a scripted environment.
 
 TLC dumps the state graph of Driver.tla for a small configuration (one function, two points + the NaN
-point, budgets 1..2, optimizer and DOE).  Every selected transition is completed into a behaviour that
-ends in `postrun` (or `crashed`), and the behaviour is forced on the real gemseo objects:
+point, budgets 1..2, optimizer and DOE, Jacobians stored or not).  Every selected transition is completed
+into a behaviour that ends in `postrun` (or `crashed`), and the behaviour is forced on the real gemseo objects:
 
-* the environment's requests `Ask(n, p)` become the script of a tiny optimization library (ScriptedOpt,
-  a BaseOptimizationLibrary whose `_run` just issues the requests), a DOE becomes a CustomDOE with the
-  samples of the behaviour;
+* the environment's requests `AskAt(f, kind, p)` / `AskJacFirst(f, p)` (read from TLC's transition labels)
+  become the script of a tiny optimization library (ScriptedOpt, a BaseOptimizationLibrary whose `_run` just
+  issues the requests), a DOE becomes a CustomDOE with the samples of the behaviour; the behaviours in which
+  the budget is reached on a Jacobian request at a point without entry (gradient-first algorithms), with
+  Jacobians stored or not, are always replayed;
 * the outcomes of the original callables (`ok | nan | raise`) are scripted per (function, kind, point);
 * `NewIter("MaxTime")` is produced by a fake clock substituted for `time` in base_driver_library
   (test double), `AlgoReturn("Other")` by the script raising a plain TerminationCriterion;
 * `SeedEmpty(p)` is `database.store(x_p, {})` before the execution.
 
 After execute() the real objects are projected on the abstract state (database keys in order, names per
-key, evaluation counter, stop class, result / x_opt, listeners left, exception or not) and compared with
-the final state computed by TLC.  x_opt is compared with the set of values BuildResult allows.
+key, evaluation counter, points at which an original callable was entered, stop class, result / x_opt,
+listeners left, exception or not) and compared with the final state computed by TLC.  A run that differs is
+given to DriverTrace.tla (lenient mode), which names the clause of the property it breaks, if any.  x_opt is compared with the set of values BuildResult allows.
 """
 from __future__ import annotations
 
@@ -31,7 +34,10 @@ COORD = {0: (float("nan"), float("nan")), 1: (1.0, 1.0), 2: (0.0, 0.5), 3: (-1.0
 def graph_cfg():
     from .c03 import model_cfg
 
-    return model_cfg(points=2, nfuncs=1, maxexec=1, maxn=2, nxs="{9}", kkts="{FALSE}", invs=["Budget"])
+    # Jacobians stored or not; the environment may ask a Jacobian at a point it has not asked the value at
+    # (gradient-first algorithms), under the assumption DriverCompletesPoint only
+    return model_cfg(points=2, nfuncs=1, maxexec=1, maxn=2, nxs="{9}", kkts="{FALSE}", storejac="{TRUE, FALSE}",
+                     assume="completesPoint", invs=["Budget"])
 
 
 def make_library(grad: bool):
@@ -152,21 +158,9 @@ def replay(ck, g: Graph, path, norm):
             seeds.append(args[0])
         elif a == "Execute":
             cfg = args[0]
-        elif a == "Next":                                   # Ask(n, p) of the environment
-            if s == d:                                      # served from the database: no state change
-                stored = fdict(src["outs"])
-                p, n = next((q, sorted(v)[0]) for q, v in sorted(stored.items()) if v)
-            elif dst["req"]["st"] == "call":
-                n, p = dst["req"]["n"], dst["req"]["p"]
-            elif dst["stop"] == "DesvarIsNan":
-                n, p = ("f", "val"), 0
-            else:                                           # MaxIter: any point whose entry is empty
-                stored = fdict(src["outs"])
-                # preferably an entry that exists but is empty (seeded), else a point never stored
-                p = next((q for q in sorted(stored) if not stored[q]), None) or \
-                    next(q for q in (1, 2, 3) if q not in stored)
-                n = ("f", "val")
-            script.append(("ask", n[0], n[1], COORD[p]))
+        elif a in ("AskAt", "AskJacFirst"):                 # a request of the environment, read from TLC's label
+            f_, k_, p = args if a == "AskAt" else (args[0], "jac", args[1])
+            script.append(("ask", f_, k_, COORD[p]))
         elif a == "OrigCall":
             r = src["req"]
             outcomes.setdefault((r["n"][0], r["n"][1], r["p"]), []).append(args[0])
@@ -208,17 +202,21 @@ def replay(ck, g: Graph, path, norm):
         "cur": int(problem.evaluation_counter.current),
         "crashed": bool(end["crashed"]),
         "stop": end["cause"], "hasResult": bool(end["result"]), "nni": end["nni"],
+        # points at which an original callable was entered during the execution
+        "origPts": sorted({e["p"] for e in rec.events[rec.start:] if e["ev"] == "orig"}),
     }
     # the recorder interned the points in order of appearance: translate to the model's ids
     to_model = {rec.pids[R.Rec._key(np.array(c))]: m for m, c in COORD.items() if m and R.Rec._key(np.array(c)) in rec.pids}
     impl["keys"] = [to_model.get(p, -p) for p in impl["keys"]]
     impl["outs"] = {to_model.get(p, -p): v for p, v in impl["outs"].items()}
+    impl["origPts"] = sorted(to_model.get(p, -p) for p in impl["origPts"])
     xopt = to_model.get(end["xopt"], -end["xopt"]) if end["xopt"] else 0
     spec = {
         "keys": list(final["keys"]),
         "outs": {p: sorted(tuple(n) for n in v) for p, v in fdict(final["outs"]).items()},
         "cur": final["cur"], "crashed": final["phase"] == "crashed",
         "stop": final["stop"], "hasResult": bool(final["hasResult"]), "nni": len(final["nil"]),
+        "origPts": sorted(final["origPts"]),
     }
     if spec["crashed"]:
         for f in ("stop", "hasResult", "nni"):
@@ -231,7 +229,7 @@ def replay(ck, g: Graph, path, norm):
     case = {"cfg": cfg, "seeds": seeds, "script": [list(s) for s in script], "outcomes": {str(k): v for k, v in outcomes.items()},
             "max_time_at_iteration": fire_at, "normalize": norm,
             "actions": [g.edges[k][2] + (str(g.edges[k][3]) if g.edges[k][2] != "Execute" else "") for k in path]}
-    return diff, case, exc
+    return diff, case, exc, R.trace_of(rec, 0, {})
 
 
 def run(ck, rng, validate):
@@ -243,7 +241,7 @@ def run(ck, rng, validate):
     nxt = completion(g)
     # target edges: everything that is a decision of gemseo or of the environment
     targets = [k for k, e in enumerate(g.edges)
-               if e[2] in ("Next", "OrigCall", "NewIter", "AskOwn", "Store", "NextSample", "AlgoReturn", "BuildResult",
+               if e[2] in ("AskAt", "AskJacFirst", "OrigCall", "NewIter", "AskOwn", "Store", "NextSample", "AlgoReturn", "BuildResult",
                            "Execute", "PostRun")
                and e[0] in par and (e[1] in nxt or g.states[e[1]]["phase"] in ("postrun", "crashed"))]
     rng.shuffle(targets)
@@ -252,12 +250,30 @@ def run(ck, rng, validate):
     def budget_on_seeded(k):
         s_, d_, a_, _ = g.edges[k]
         src, dst = g.states[s_], g.states[d_]
-        return a_ in ("Next", "AskOwn") and dst["stop"] == "MaxIter" and src["stop"] == "none" and \
+        return a_ in ("AskAt", "AskJacFirst", "AskOwn") and dst["stop"] == "MaxIter" and src["stop"] == "none" and \
             any(not v for v in fdict(src["outs"]).values())
-    must = [k for k in targets if budget_on_seeded(k)][:40]
+
+    # always replayed: gradient-first requests (a Jacobian asked at a point whose entry is empty), above all the
+    # budget reached on such a request, with Jacobians stored or not: the answer is MaxIter, not an original call
+    def jac_first(k, store_jac, stopped):
+        s_, d_, a_, _ = g.edges[k]
+        src, dst = g.states[s_], g.states[d_]
+        return a_ == "AskJacFirst" and bool(src["cfg"]["storeJac"]) == store_jac and \
+            (dst["stop"] == "MaxIter") == stopped
+    must, classes = [], {}
+    for name, pred, quota in (("budget_on_seeded_entry", budget_on_seeded, 40),
+                              ("jacobian_first_budget_reached_jacobians_not_stored", lambda k: jac_first(k, False, True), 40),
+                              ("jacobian_first_budget_reached_jacobians_stored", lambda k: jac_first(k, True, True), 16),
+                              ("jacobian_first_served_jacobians_not_stored", lambda k: jac_first(k, False, False), 16)):
+        sel = [k for k in targets if pred(k) and k not in set(must)][:quota if not ck.thorough else None]
+        classes[name] = len(sel)
+        if not sel:
+            raise MachineryError(f"no behaviour of the Driver graph in the class {name}")
+        must += sel
+    ck.extra["scripted_classes_always_replayed"] = classes
     targets = must + [k for k in targets if k not in set(must)]
-    budget = 3000 if ck.thorough else 220
-    n = 0
+    budget = 3000 if ck.thorough else 260
+    n = n_diag = 0
     seen = set()
     for k in targets:
         if n >= budget:
@@ -278,13 +294,24 @@ def run(ck, rng, validate):
         seen.add(key)
         n += 1
         norm = bool(n % 2)
-        diff, case, exc = replay(ck, g, path, norm)
+        diff, case, exc, trace = replay(ck, g, path, norm)
         if n <= 2:
             ck.sample({"scripted": case})
         if diff:
             cfg = case["cfg"]
             stop = g.states[g.edges[path[-1]][1]]["stop"]
-            ck.violation("ScriptedReplay", {"kind": cfg["kind"], "algo": "SCRIPT" if cfg["kind"] == "opt" else "CustomDOE",
+            # which clause of the property the observed run breaks, if any: DriverTrace (lenient mode) evaluates
+            # them on the observed states of the recorded run
+            clause = "ScriptedReplay"
+            if n_diag < 8:
+                n_diag += 1
+                from .c03 import run_batch
+
+                trace.update(id=n, noorig=False)
+                v = run_batch(ck, [trace], True, f"script-diag-{n}").get(n)
+                if v and v[2] != "ok":
+                    clause = v[2]
+            ck.violation(clause, {"kind": cfg["kind"], "algo": "SCRIPT" if cfg["kind"] == "opt" else "CustomDOE",
                                             "normalize": norm, "fields": sorted(diff), "stop": stop,
                                             "exception": type(exc).__name__ if exc is not None else "",
                                             "detail": repr(exc)[:60] if exc is not None else ""},
